@@ -184,15 +184,16 @@ def tensors(E):
     sym.begin(E)
     x, y, u = sym.sym(E, 'x'), sym.sym(E, 'y'), sym.sym(E, 'u')
     data1 = E.choice('d1', [[x, 1, 0, x * y], [x + y, 2, 3, 4],
-                            [1, 2, 3, 4], [x ** 2, y, x - y, 0.5]])
+                            [1, 2, 3, 4], [x ** 2, y, x - y, 0.5],
+                            [1, 0, 0, x]])
     data2 = E.choice('d2', [[y, x], [1, 2 * x]])
     f = tensor.Box('f', Dim(2), Dim(2), data1)
     g = tensor.Box('g', Dim(2), Dim(1), data2)
     d = E.choice('shape', [f >> g, f @ f >> tensor.Id(Dim(2)) @ g,
-                           f >> f.dagger() >> g])
-    how = E.choice('how', ['symbol', 'pairs', 'number'])
+                           f >> f.dagger() >> g, tensor.Id(Dim(2)) >> f])
+    how = E.choice('how', ['symbol', 'pairs', 'number', 'float'])
     args = {'symbol': (x, u + 1), 'pairs': ([(x, u), (y, 2)],),
-            'number': (x, 3)}[how]
+            'number': (x, 3), 'float': (x, 0.5)}[how]
     s = d.subs(*args)
     E.check(structure(s) == structure(d), "C14:tensor:subs-changes-structure")
     rhs = entry_subs(flat(d.eval()), *args)
@@ -283,8 +284,9 @@ def harnesses(tier):
           "other parameter, list of pairs, float, rational"
           % (1 if q else 2), outside="non-polynomial phase expressions",
           timeout_s=T, solver_timeout_ms=120000),
-        H("tensors", tensors, {}, FUNCS, covers=['symbol', 'pairs', 'number'],
-          engine="SYM (z3 QF_NRA)", bounds="3 tensor diagram shapes x 4x2 box "
+        H("tensors", tensors, {}, FUNCS,
+          covers=['symbol', 'pairs', 'number', 'float'],
+          engine="SYM (z3 QF_NRA)", bounds="4 tensor diagram shapes x 5x2 box "
           "data with polynomial entries in x, y (mixed with plain numbers)",
           timeout_s=T),
         H("zxs", zxs, {}, FUNCS, covers=['symbol', 'pairs', 'number'],
